@@ -242,3 +242,49 @@ func cutEdge(ifi *ssa.If, succ int) an.EdgeCut {
 func (q *fq) onlyViaEdge(site ssa.Instruction, ifi *ssa.If, succ int) bool {
 	return !q.c.P.PathExists(q.fn, nil, an.Is(site), nil, cutEdge(ifi, succ))
 }
+
+// either: the comparison's operands match (fa, fb) in one order or the other.
+func either(b *ssa.BinOp, fa, fb func(ssa.Value) bool) bool {
+	return (fa(b.X) && fb(b.Y)) || (fa(b.Y) && fb(b.X))
+}
+
+// cmpOf orients an ordering comparison around its subject: for `subject op other` it returns
+// (op, other); for `other op subject` the mirrored operator.
+func cmpOf(b *ssa.BinOp, isSubject func(ssa.Value) bool) (token.Token, ssa.Value, bool) {
+	if isSubject(b.X) {
+		return b.Op, b.Y, true
+	}
+	if isSubject(b.Y) {
+		op := b.Op
+		switch b.Op {
+		case token.LSS:
+			op = token.GTR
+		case token.LEQ:
+			op = token.GEQ
+		case token.GTR:
+			op = token.LSS
+		case token.GEQ:
+			op = token.LEQ
+		}
+		return op, b.X, true
+	}
+	return 0, nil, false
+}
+
+func isVal(v ssa.Value) func(ssa.Value) bool { return func(x ssa.Value) bool { return x == v } }
+
+func loadOfField(field string) func(ssa.Value) bool {
+	return func(v ssa.Value) bool { return an.IsLoadOfField(v, field) }
+}
+
+// cellOfParam: the cell a captured parameter was spilled into.
+func cellOfParam(fn *ssa.Function, prm *ssa.Parameter) *ssa.Alloc {
+	for _, r := range *prm.Referrers() {
+		if st, ok := r.(*ssa.Store); ok && st.Val == ssa.Value(prm) {
+			if al, ok := st.Addr.(*ssa.Alloc); ok {
+				return al
+			}
+		}
+	}
+	return nil
+}
